@@ -598,6 +598,19 @@ func (e *Exec) finish(vars map[string]Value) {
 		}
 		cases = next
 	}
+	if e.Con.SplitRet && len(e.rets) > 1 {
+		var next []splitCase
+		for _, c := range cases {
+			for k, r := range e.rets {
+				g := r.reach
+				if c.guard != "" {
+					g = "(and " + c.guard + " " + g + ")"
+				}
+				next = append(next, splitCase{g, fmt.Sprintf("%s[return#%d]", c.label, k+1)})
+			}
+		}
+		cases = next
+	}
 	for i, en := range e.Con.Ensures {
 		if !en.activeFor(e.Prop) {
 			continue
@@ -665,6 +678,19 @@ func (e *Exec) ghostAssign(s *State, env *Env, ga *GhostAssign) {
 		panic(contractError{fmt.Sprintf("%s: ghostdo on unknown ghost variable %s", e.Con.RawName, ga.Name)})
 	}
 	cur := &Env{e: e, vars: env.vars, st: s, old: e.entry, pkgPath: env.pkgPath}
+	e.ghostAssignIn(s, cur, g, ga)
+}
+
+// ghostAssignEnv executes a ghost statement with a caller-supplied environment (locals in scope).
+func (e *Exec) ghostAssignEnv(s *State, env *Env, ga *GhostAssign) {
+	g, ok := e.CS.Ghost[ga.Name]
+	if !ok {
+		panic(contractError{fmt.Sprintf("%s: ghost statement on unknown ghost variable %s", e.Con.RawName, ga.Name)})
+	}
+	e.ghostAssignIn(s, env, g, ga)
+}
+
+func (e *Exec) ghostAssignIn(s *State, cur *Env, g *GhostVar, ga *GhostAssign) {
 	t := cur.resolveTypeIn(g.Ty, g.PkgPath)
 	val := e.evalSpecSafe(cur, ga.Val, e.Con, "ghostdo")
 	if ga.Key != nil {
